@@ -164,6 +164,35 @@ theorem C05_converge_partial (F : BodyFn) (P : Project) (g : G) (cfg cfg' : Cfg)
   intro cfg'' so4 so5 s4 s5 picks hforce hw4 hloop
   exact quiet_loop hwf cfg'' hforce picks so4 s4 so5 s5 (by rw [hw4]; exact hrows) hloop
 
+/-! ### The limit: an edit between the kill and the recovery build (finding F20)
+
+Read literally ("no later build …"), the property also covers builds that follow *edits made after the kill*. At that strength
+it is **false of the current code**: a kill between two row commits of a task leaves a row set that mixes two snapshots, and a
+later edit that puts one input back can make every row match although the product belongs to neither snapshot's inputs.
+Witness (replayed on the real code, `findings/F20.json`): a task that writes whether its two inputs agree; both inputs are
+edited from `0` to `1` (the product stays the same), the rebuild is killed after the first row commit, the second input is put
+back to `0`: all four rows match, the task is reported unchanged, the product still says "agree". -/
+
+/-- The statement at full strength: `Inv` also survives an edit of an input file made after the kill. -/
+def C05_edit_after_kill_full : Prop :=
+  ∀ (F : BodyFn) (P : Project) (cfg : Cfg) (w : World) (g : G) (marks : List Nat) (picks : List Nat) (k n c : Nat),
+    createDag P cfg = .ok (g, marks) → WF P g → RC F P g w.db → (∀ t ∈ P.tasks, n ∉ t.prods) →
+    Inv F P g (applyStep (crashAt F P cfg w picks k) (.write n c))
+
+theorem C05_edit_after_kill_full_false : ¬ C05_edit_after_kill_full := by
+  intro h
+  have hinv := h f20F f20P {} f20W f20G [] [0] 2 11 0 (by rfl) f20_wf f20_rc (by decide)
+  have hF := hinv f20T (by simp [f20P]) f20_rowsMatch (20, 0) (by decide)
+  exact absurd hF (by decide)
+
+/-- **C05_edit_after_kill_partial.** What is true with edits: if the kill did not cut a row set in two — the database left
+behind is row-consistent, e.g. because the kill fell outside `update_states_in_database`, or because all rows of a task are
+committed in one transaction (the repair proposed in `fixes/F20.diff`) — then `Inv` holds for *every* content of the files, so
+no sequence of later edits can produce a stale "unchanged". -/
+theorem C05_edit_after_kill_partial (F : BodyFn) (P : Project) (g : G) (hwf : WF P g) (w : World) (hrc : RC F P g w.db)
+    (fs' : FS) : Inv F P g { w with fs := fs' } :=
+  inv_of_rc hwf _ hrc
+
 /-- **memo_garbage_ok.** Whatever bytes a killed writer (or anything else) left in `.pytask/file_hashes.json`: if they do not
 parse, `pytask_post_parse` starts with the empty memo (`Generated.memoLoadSuppressed`: the whole load sits in
 `suppress(Exception)`), never with an exception; the empty memo is coherent, and under a coherent memo the state of a file
@@ -220,6 +249,11 @@ example : ∃ (so3 : Sorter) (s3 : Sess),
     (C05_rc_init _ _ _) [] 0 c05T0 rfl (by intro rep h; cases h) rfl c05_ord1 4 _ rfl
     c05So _ { w := applySteps c05W ((protocolSteps c05F c05P c05G {} { w := c05W } c05T0).take 4) } _ rfl [0, 1] rfl
     (by decide) (by decide) (by intro t ht; simp [c05P] at ht; rcases ht with rfl | rfl <;> decide) c05_ord2 c05_frame2).1
+
+/-- the F20 witness in the model: after the kill and the edit, the recovery build reports the task unchanged and leaves the
+stale product (`0` = "agree") although the inputs now differ (`1`, `0`) -/
+example : (build f20F f20P {} (applyStep (crashAt f20F f20P {} f20W [0] 2) (.write 11 0)) [0]).toOption.map
+    (fun r => (r.reports, r.log, lookup r.w.fs 20)) = some ([(0, .skipUnchanged)], [], some 0) := by decide
 
 /-- garbage in the memo file loads as the empty memo -/
 example : loadMemo (fun _ => none) (some [0xff, 0xfe]) = some [] := by decide
